@@ -1,6 +1,7 @@
 import Mathlib.Tactic.Ring
 import OnlVerif.Lemmas.Port
 import OnlVerif.Props.C09K
+import OnlVerif.Lemmas.GenPort
 /-!
 # C09 — a port serialises at its line rate and tail-drops exactly at its limit
 
@@ -187,6 +188,58 @@ theorem red_avg_formula (avg cur : ℚ) (w : Nat) :
   simp only [Num.ofNat]
   push_cast
   rfl
+
+/-! ### The source, re-translated on every run, *is* the model (bridge theorems)
+
+`Generated/Port.lean` is rewritten by `py2lean` from the current `onl/netdev/port.py` / `red_port.py` before this file is
+compiled.  The theorems below hold for every scalar type (exact rationals and IEEE doubles alike); the encoding of a model
+configuration + state as the Python object is `GenPort.obj` / `GenPort.redObj` (counters `Nat ↦ int`, `busy : Bool ↦ 0/1`,
+`qlimit : Option Int ↦ None/int`, the result "accepted" ↦ one more `self.store.put(packet)`). -/
+
+/-- **`Port.put` as written in the source is the model's `admitPlain`**: for every configuration, state, number of waiting
+packets and packet, running the translated method on the encoded object gives the encoded result of `Port.admitPlain`:
+same counters, same byte count, a `perhop_time` stamp iff `element_id` is truthy, and `self.store.put(packet)` is called
+iff the model accepts.  (A flipped comparison, `qlimit - 1` changed to `qlimit`, a dropped counter update or a missing
+`store.put` in the source makes this fail to compile.) -/
+theorem port_put_generated_eq_model {α : Type} [Num α] (c : PortCfg α) (d : PortSt α) (out : Bool)
+    (puts outs waiting : Nat) (p : Pkt α) :
+    Gen.Port.put (GenPort.obj c d out puts outs) waiting p.size =
+      GenPort.obj c (admitPlain c d waiting p).1 out (puts + GenPort.acc (admitPlain c d waiting p)) outs :=
+  GenPort.put_eq c d out puts outs waiting p
+
+/-- **The body of `Port.run` as written in the source is the model's `onResume` / `txTime` / `onDone`**: the statements
+between the `get` and the transmission `if` are `onResume`'s state update (`busy`, `busy_packet_size`); the `if` test is
+`0 < rate` and the sleep is `txTime = 8·size/rate`, so `onResume` continues exactly as the source says; the statements after
+it are `onDone` (`byte_size -= size`, `busy` reset) plus one `self.out.put(packet)`.  (Stated over exact rationals: writing
+`8.0` for `8` in the source does not matter, another factor does.) -/
+theorem port_run_generated_eq_model (c : PortCfg ℚ) (d : PortSt ℚ) (out : Bool)
+    (puts outs : Nat) (now x y : ℚ) (p : Pkt ℚ) :
+    Gen.Port.run_start (GenPort.obj c d out puts outs) p.size = GenPort.obj c (onResume c d now x y p).1 out puts outs ∧
+    Gen.Port.run_tx_guard (GenPort.obj c d out puts outs) = decide (Num.zero < c.rate) ∧
+    Gen.Port.run_tx_delay (GenPort.obj c d out puts outs) p.size = txTime c p ∧
+    (onResume c d now x y p).2.2 =
+      (if Gen.Port.run_tx_guard (GenPort.obj c d out puts outs) = true
+       then Next.wait (Gen.Port.run_tx_delay (GenPort.obj c d out puts outs) p.size) else Next.emit) ∧
+    Gen.Port.run_done (GenPort.obj c d true puts outs) p.size = GenPort.obj c (onDone d p) true puts (outs + 1) :=
+  ⟨GenPort.run_start_eq c d out puts outs now x y p, GenPort.run_tx_guard_eq c d out puts outs,
+   GenPort.run_tx_delay_eq c d out puts outs p, GenPort.run_next_eq c d out puts outs now x y p,
+   GenPort.run_done_eq c d puts outs p⟩
+
+/-- **`REDPort.put` as written in the source is the model's `admitRed`** (hence `redAvg`, `redDrop`): for a RED port with
+`qlimit = q ≥ 0` and a non-negative byte count (an invariant, `byte_occupancy_eq_held`), running the translated method with
+the uniform draw `p.draw` gives the encoded result of `Port.admitRed`: the new average is `redAvg`, the packet is dropped
+iff `redDrop` says so, and `self.store.put(packet)` is called iff it is not.  (Over exact rationals; the decision tree after
+the average update is proved equal for every scalar type, `GenPort.red_decide_eq`.) -/
+theorem red_put_generated_eq_model (c : PortCfg ℚ) (red : ℚ × ℚ × ℚ × Nat) (q : Int) (d : PortSt ℚ)
+    (puts waiting : Nat) (p : Pkt ℚ) (hq : c.qlimit = some q) (h0 : 0 ≤ q) (hb : 0 ≤ d.byteSize) :
+    Gen.REDPort.put (GenPort.redObj c red q d puts) waiting p.size p.draw =
+      GenPort.redObj c red q (admitRed c red d waiting p).1 (puts + GenPort.acc (admitRed c red d waiting p)) :=
+  GenPort.red_put_eq c red q d puts waiting p hq h0 hb
+
+/-- the translated `Port.put` on a concrete object: limit 2 packets, one waiting → dropped, no `store.put` -/
+example : (Gen.Port.put (GenPort.obj (α := ℚ) { rate := 8, qlimit := some 2, limitBytes := false, hasId := true }
+      { byteSize := 10, received := 1, busy := true, busySize := 10, avg := 0, stamps := 1 } true 1 0) 1 10).packets_dropped = 1 := by
+  decide +kernel
 
 /-! ### non-vacuity -/
 
